@@ -1,17 +1,16 @@
 //@file src/algo/distance_matrix.rs
 // the remaining Index / IndexMut impls (flat index, full range, range): safe std indexing, in range => the addressed cells
 impl<W> DistanceMatrix<W> {
-    /*@fn impl=DistanceMatrix trait=Index implhas='Index<usize>' name=index rename=index_flat subst=Self::Output=>W
-    requires
-        index < self.dist@.len(),
+    // no precondition: an index outside the buffer panics (rule E4b), it is never read
+    /*@fn impl=DistanceMatrix trait=Index implhas='Index<usize>' name=index rename=index_flat subst=Self::Output=>W safeindex
     ensures
+        index < self.dist@.len(),
         *r == self.dist@[index as int],
     @*/
 
-    /*@fn impl=DistanceMatrix trait=IndexMut implhas='IndexMut<usize>' name=index_mut rename=index_flat_mut subst=Self::Output=>W
-    requires
-        index < old(self).dist@.len(),
+    /*@fn impl=DistanceMatrix trait=IndexMut implhas='IndexMut<usize>' name=index_mut rename=index_flat_mut subst=Self::Output=>W safeindex
     ensures
+        index < old(self).dist@.len(),
         final(self).order == old(self).order,
         final(self).infinity == old(self).infinity,
         *r == old(self).dist@[index as int],
